@@ -27,6 +27,12 @@ CHECKS = {
     "C09": ("property-based testing with an online invariant over the call history (observed bytes never change, drained = observable prefix, observable prefix of final output, lag bound) on generated drain schedules and on multi-MiB generated streams",
             "After every encoder/decoder call the consumable bytes are compared with everything seen before and with the final output; lag is checked against the constant bound after every call, on short messages with dense drain schedules and on streams of 2..24 MiB (16..320 MiB thorough) through Encoder, Decoder and Encoder->Decoder pipelines.",
             "Arena requests <= 512 KiB; the bound is checked as a constant.", "DESIGN.md §5 C09"),
+    "C11": ("property-based round-trip + differential testing against an independently written Roughtime layout (proptest recursive value generator), limit checks with claimed-length values",
+            "Generated lists of pairs (repeated tags, empty values, borrowed/owned Cow, &str, nested messages to depth 3, re-encoded views; all three constructors; OwningIovec and HCOBS Encoder sinks) are encoded and compared byte for byte with the reference layout, then read back through every MessageView accessor; accept/reject at the i32::MAX limits is decided with values that only claim a length, including exact edge totals.",
+            "Trusts refimpl/tlv_ref.rs; more than i32::MAX pairs only in the thorough tier.", "DESIGN.md §5 C11"),
+    "C12": ("differential property-based testing of a parser on untrusted bytes: header-shape generator with single perturbations + exhaustive small word strings + every truncation, against an independent validator; accessor agreement as a metamorphic check",
+            "MessageView::new's verdict is compared with an independent validator on perturbed headers, arbitrary strings, every prefix of valid messages and every string of up to 6 (8) words over {0,1,2,3,u32::MAX}; on accepted views all accessors are exercised at indices 0..N+2 and usize::MAX and must agree with each other and with the reference parse, with values tiling the payload by address.",
+            "Trusts refimpl/tlv_ref.rs.", "DESIGN.md §5 C12"),
     "C15": ("model-based property testing: exhaustive DFS over operation sequences + proptest random sequences, VecDeque as reference model",
             "Every operation sequence over a 10-symbol alphabet up to depth 8 (9 in thorough) on three backings is enumerated and compared step by step with VecDeque, then tens of thousands (millions in thorough) of random sequences of up to 200 operations; the space bound is read through a hook, the crate's debug assertions are on. Exhaustive within the bound, sampled beyond it.",
             "VecDeque is the reference; bounded sequence length; hooks: sliding_deque/verif-hooks (verif_rep).", "DESIGN.md §5 C15"),
